@@ -22,7 +22,8 @@ CORR_ONLY = ["real memory safety is observed by the sanitizers on the compiled p
 ASSUMPTIONS = ["1e-2 of Interpolation::Locate is modelled as exactly 1/100; generated abscissae keep a 2^-30 relative margin from the tolerance edge, or sit on it where 0.01*h is exact in double",
                "Matrix::Inverse: with exact arithmetic the third exit (zero pivot after partial pivoting) is unreachable for det != 0; inputs are small integer matrices on which double arithmetic is exact",
                "std::is_sorted / std::sort / std::unique behave as specified by the C++ standard"]
-TRUSTED = ["harness/c10.cpp builds the operands (constant-filled vectors/matrices/tables of the requested shape) for each request"]
+TRUSTED = ["harness/c10.cpp builds the operands (constant-filled vectors/matrices/tables of the requested shape) for each request",
+           "translators/guards.py (anchoring regexes, condition parser, per-entry operand/type table, Lean emitter; regenerates lean/LpModel/C10/GeneratedGuards.lean from the current source before every lake build; cross-checked by the gen_*_eq proofs against the hand-written model and by the correspondence run against the compiled code)"]
 
 UMAX = 4294967295
 IMAX = 2147483647
